@@ -294,9 +294,84 @@ class Gen:
         return res
 
     # -- top level
+    # -- C++ class hierarchies: single inheritance, members redeclared in the derived class, member functions and
+    #    constructors defined outside the class body, this-> / qualified / unqualified uses, static members, nested classes
+    def member_expr(self, own, base, statics, local, bname, d=0):
+        r = self.rng.random()
+        allm = sorted(set(own) | set(base))
+        if r < 0.35 and allm:
+            return self.rng.choice(allm)                                   # unqualified
+        if r < 0.5 and allm:
+            return "this->" + self.rng.choice(allm)
+        if r < 0.62 and base and bname:
+            return "%s::%s" % (bname, self.rng.choice(sorted(base)))       # qualified: the base member
+        if r < 0.72 and statics:
+            return self.rng.choice(sorted(statics))
+        if r < 0.8 and local:
+            return self.rng.choice(sorted(local))
+        if r < 0.9 and d < 2:
+            return "(%s %s %s)" % (self.member_expr(own, base, statics, local, bname, d + 1), self.rng.choice("+-*"),
+                                   self.member_expr(own, base, statics, local, bname, d + 1))
+        return str(self.rng.randint(0, 9))
+
+    def member_body(self, own, base, statics, params, bname, ind):
+        pad = "  " * ind
+        local = set(params)
+        lines = []
+        for _ in range(self.rng.randint(1, 4)):
+            r = self.rng.random()
+            allm = sorted(set(own) | set(base))
+            if r < 0.2:
+                n = self.rng.choice(self.VN)
+                if n not in local:
+                    lines.append(pad + "int %s = %s;" % (n, self.member_expr(own, base, statics, local, bname)))
+                    local.add(n)
+                    continue
+            if r < 0.3:
+                n = self.rng.choice(self.VN)
+                lines.append(pad + "{ int %s = %s; (void)%s; }" % (n, self.member_expr(own, base, statics, local, bname), n))
+                continue
+            if allm and r < 0.8:
+                tgt = self.rng.choice([self.rng.choice(allm), "this->" + self.rng.choice(allm)] +
+                                      (["%s::%s" % (bname, self.rng.choice(sorted(base)))] if base and bname else []))
+                if tgt in local and not tgt.startswith("this"):
+                    tgt = "this->" + tgt
+                lines.append(pad + "%s = %s;" % (tgt, self.member_expr(own, base, statics, local, bname)))
+            else:
+                lines.append(pad + "(void)%s;" % self.member_expr(own, base, statics, local, bname))
+        return lines
+
+    def class_hierarchy(self):
+        self.nfun += 1
+        k = self.nfun
+        B, D = "B%d" % k, "D%d" % k
+        bm = self.rng.sample(self.VN, self.rng.randint(2, 3))
+        st = [m for m in self.VN if m not in bm][:1]
+        redecl = self.rng.sample(bm, self.rng.randint(1, len(bm)))
+        dm = redecl + [m for m in self.VN if m not in bm and m not in st][:self.rng.randint(0, 1)]
+        self.features.update(["class-hierarchy", "member-redeclared-in-derived", "out-of-class-member-function", "static-member"])
+        nested = self.rng.random() < 0.5
+        out = ["struct %s {" % B] + ["  int %s;" % m for m in bm] + ["  static int %s;" % m for m in st] + \
+              ["  %s();" % B, "  int getb();"]
+        if nested:
+            self.features.add("nested-class")
+            nm = self.rng.sample(self.VN, 2)
+            out += ["  struct In { int %s; int %s; int sum() const { return %s + %s; } };" % (nm[0], nm[1], nm[0], nm[1])]
+        out += ["};", "struct %s : %s {" % (D, B)] + ["  int %s;" % m for m in dm] + \
+               ["  %s();" % D, "  int get() const;", "  void set(int %s);" % bm[0], "  int inl() const { return %s; }" % self.member_expr(dm, bm, st, set(), B), "};"]
+        out += ["int %s::%s = 0;" % (B, m) for m in st]
+        out += ["%s::%s() : %s {}" % (B, B, ", ".join("%s(%d)" % (m, i) for i, m in enumerate(bm)))]
+        out += ["int %s::getb() {" % B] + self.member_body(bm, [], st, [], None, 1) + ["  return %s;" % self.member_expr(bm, [], st, set(), None), "}"]
+        out += ["%s::%s() : %s {}" % (D, D, ", ".join("%s(%d)" % (m, i + 5) for i, m in enumerate(dm)))]
+        out += ["int %s::get() const {" % D, "  return %s;" % self.member_expr(dm, bm, st, set(), B), "}"]
+        out += ["void %s::set(int %s) {" % (D, bm[0])] + self.member_body(dm, bm, st, [bm[0]], B, 1) + ["}"]
+        return out
+
     def toplevel(self):
         r = self.rng.random()
         g = self.scopes[0]
+        if self.cpp and r < 0.22:
+            return self.class_hierarchy()
         if r < 0.3:
             cand = [n for n in self.VN if n not in g]
             if cand:
@@ -410,7 +485,7 @@ def clang_links(ast):
             return None
         return (st["line"], o["col"], o.get("includedFrom") is None)
 
-    def walk(n):
+    def walk(n, parent=""):
         if not isinstance(n, dict):
             return
         l = loc(n["loc"]) if "loc" in n else None
@@ -421,7 +496,7 @@ def clang_links(ast):
         k = n.get("kind", "")
         if k.endswith("Decl") and "id" in n and l:
             decls[n["id"]] = {"kind": k, "name": n.get("name"), "line": l[0], "col": l[1], "prev": n.get("previousDecl"),
-                              "implicit": n.get("isImplicit", False), "file": st["file"]}
+                              "implicit": n.get("isImplicit", False), "file": st["file"], "parent": parent}
         if k == "DeclRefExpr" and rb and "referencedDecl" in n:
             rd = n["referencedDecl"]
             # a qualified name (N::a, ::a) begins at the qualifier: the name token is at range.end
@@ -430,7 +505,7 @@ def clang_links(ast):
         if k == "MemberExpr" and re_ and "referencedMemberDecl" in n:
             uses.append((re_[0], re_[1], n.get("name"), n["referencedMemberDecl"], "FieldDecl"))
         for c in n.get("inner", []):
-            walk(c)
+            walk(c, k)
 
     walk(ast)
     return decls, uses
@@ -492,6 +567,24 @@ def dump_links(dump_path):
     return res
 
 
+def is_member_vs_global(decls, cppcheck_decl, clang_did):
+    """classification of one known defect class: clang resolved a class member (field, or static member declared in a
+    record), cppcheck linked a declaration that clang has at namespace scope (a global, or the out-of-class definition
+    of another static member)"""
+    d = decls.get(clang_did)
+    if not d:
+        return False
+    first = d
+    while first.get("prev") in decls:
+        first = decls[first["prev"]]
+    if not (d["kind"] == "FieldDecl" or first["parent"] in ("CXXRecordDecl", "RecordDecl")):
+        return False
+    for v in decls.values():
+        if (v["line"], v["col"]) == tuple(cppcheck_decl) and v["kind"] == "VarDecl" and v["parent"] in ("TranslationUnitDecl", "NamespaceDecl", ""):
+            return True
+    return False
+
+
 def compare_with_clang(dump_uses, decls, cl_uses):
     """Per use site both tools link: does cppcheck's declaration belong to the entity clang resolved?
     Returns (n_compared, mismatches[(line, col, name, cppcheck_decl, clang_decls)])."""
@@ -511,11 +604,11 @@ def compare_with_clang(dump_uses, decls, cl_uses):
         if vdecl is not None and kind in ("VarDecl", "ParmVarDecl", "FieldDecl", "BindingDecl"):
             n += 1
             if vdecl not in ent:
-                bad.append((l, c, s, vdecl, sorted(ent)))
+                bad.append((l, c, s, vdecl, sorted(ent), "member-vs-global" if is_member_vs_global(decls, vdecl, did) else ""))
         elif fdecl and kind in ("FunctionDecl", "CXXMethodDecl"):
             n += 1
             if not (fdecl & ent):
-                bad.append((l, c, s, sorted(fdecl), sorted(ent)))
+                bad.append((l, c, s, sorted(fdecl), sorted(ent), ""))
     return n, bad
 
 
